@@ -60,6 +60,15 @@ impl GapCache {
             resources.remove_multiple(h_rq, count);
             resources
         } else {
+            // (as for a trivial request: a variant that takes all of a resource leaves no gap;
+            // with an unknown capacity its amount is not a usable coefficient either)
+            if h_rqv
+                .requests()
+                .iter()
+                .any(|rq| rq.entries().iter().any(|r| r.request.amount_is_all()))
+            {
+                return 0;
+            }
             let key = GapKeyRef {
                 rq: high_priority_rq,
                 resources,
@@ -115,6 +124,11 @@ fn compute_gap_resources(
             if r_amount.is_zero() {
                 return ResourceAmount::ZERO;
             }
+            // An unknown capacity (hypothetical workers of a worker query) is not exhausted
+            // by explicit amounts and is no usable coefficient or bound for the solver
+            if r_amount.is_max() {
+                return r_amount;
+            }
             let r_id = ResourceId::new(idx as u32);
             let mut solver = LpSolver::new(false);
             let mut cst = vec![Vec::new(); n_resources];
@@ -138,6 +152,9 @@ fn compute_gap_resources(
             }
             for (idx, c) in cst.into_iter().enumerate() {
                 let r_id = ResourceId::new(idx as u32);
+                if resources.get(r_id).is_max() {
+                    continue;
+                }
                 solver.add_constraint(
                     ConstraintType::Max,
                     resources.get(r_id).as_f64(),
